@@ -5,9 +5,18 @@ package mon
 // counts the reports. The real-clock priority runs also feed the load-robust oracles.
 
 import (
+	"fmt"
 	"math/rand/v2"
 	"os"
+	"sort"
+	"sync"
 	"testing"
+	"time"
+
+	v1prio "github.com/akramarenkov/cqos/priority"
+	"github.com/akramarenkov/cqos/v2/limit"
+	"github.com/akramarenkov/cqos/v2/priority/divider"
+	"github.com/akramarenkov/cqos/v2/priority/utils"
 )
 
 func (r *Run) prioRealCase(t *testing.T, sc PrioRealScenario) *prioRealResult {
@@ -101,6 +110,10 @@ func TestC20(t *testing.T) {
 	r.Parallel(t, "bare-priority", r.Cfg.pick(400, 8000)/scale, bare(false))
 	// the same, but every run stops a v1 discipline (mostly Simple) right after its constructor
 	r.Parallel(t, "bare-v1-stop-right-after-construction", r.Cfg.pick(250, 4000)/scale, bare(true))
+	// the pure helpers called from several goroutines at once with the same (read-only) arguments
+	r.Parallel(t, "concurrent-pure-functions", r.Cfg.pick(150, 2000)/scale, func(t *testing.T, idx int, rng *rand.Rand) {
+		concurrentPureCase(r, rng)
+	})
 	r.Parallel(t, "real-join-copy", r.Cfg.pick(200, 4000)/scale, joinReal(joinGen{Discs: discs, NoCopy: -1, Retain: true, Real: true}))
 	r.Parallel(t, "real-join-nocopy", r.Cfg.pick(200, 4000)/scale, joinReal(joinGen{Discs: discs, NoCopy: 1, Retain: true, Real: true}))
 	r.Parallel(t, "real-join-v1-stop", r.Cfg.pick(150, 3000)/scale, joinReal(joinGen{Discs: []string{"v1join"}, Stop: 1, Real: true}))
@@ -129,9 +142,59 @@ func bareCase(r *Run, sc PrioRealScenario) {
 		if res.EarlyStop {
 			r.Count("bare.stop_or_cancel_right_after_construction", 1)
 		}
+		if res.ResultsRead {
+			r.Count("bare.scenarios_whose_handler_results_were_read_right_after_normal_termination", 1)
+			r.Count("bare.handler_result_slots_read", int64(res.Handled))
+		}
 		if res.TwoControllers && res.CtlCalls >= 2 {
 			r.Count("bare.v1_scenarios_with_two_concurrent_control_goroutines", 1)
 		}
 		r.NonTrivial("bare:" + jsonString(sc))
 	}
+}
+
+// concurrentPureCase: 4 goroutines call the dividers, the handler-quantity helpers and the Rate
+// methods of both module versions with one shared priorities slice (unsorted, as a caller may
+// pass it) - arguments are the caller's data and are only ever read by contract.
+func concurrentPureCase(r *Run, rng *rand.Rand) {
+	prios := genPrioList(rng, 6, 64)
+	rng.Shuffle(len(prios), func(i, j int) { prios[i], prios[j] = prios[j], prios[i] })
+	sorted := append([]uint(nil), prios...)
+	sort.Slice(sorted, func(i, j int) bool { return sorted[i] > sorted[j] })
+	q := uint(1 + rng.IntN(40))
+	lim := uint(rng.IntN(101))
+	rate := limit.Rate{Interval: time.Duration(1+rng.IntN(1000)) * time.Millisecond, Quantity: uint64(1 + rng.IntN(100000))}
+	var wg sync.WaitGroup
+	for g := 0; g < 4; g++ {
+		wg.Add(1)
+		go func(g int) {
+			defer wg.Done()
+			for k := 0; k < 3; k++ {
+				switch (g + k) % 4 {
+				case 0:
+					utils.IsNonFatalConfig(prios, divider.Rate, q)
+					utils.PickUpMinNonFatalQuantity(prios, divider.Fair, 2*q)
+					utils.IsSuitableConfig(prios, divider.Fair, q, float64(lim))
+				case 1:
+					v1prio.IsNonFatalConfig(prios, v1prio.RateDivider, q)
+					v1prio.PickUpMaxNonFatalQuantity(prios, v1prio.FairDivider, 2*q)
+					v1prio.IsSuitableConfig(prios, v1prio.FairDivider, q, float64(lim))
+				case 2:
+					divider.Fair(sorted, q, map[uint]uint{})
+					divider.Rate(sorted, q, map[uint]uint{})
+					v1prio.FairDivider(sorted, q, nil)
+					v1prio.RateDivider(sorted, q, nil)
+				default:
+					_, _ = rate.Optimize()
+					_, _ = rate.Flatten()
+					utils.PickUpMaxSuitableQuantity(prios, divider.Rate, 2*q, float64(lim))
+					v1prio.PickUpMinSuitableQuantity(prios, v1prio.RateDivider, 2*q, float64(lim))
+				}
+			}
+		}(g)
+	}
+	wg.Wait()
+	r.Eval(1)
+	r.Count("concurrent_pure.cases", 1)
+	r.NonTrivial(fmt.Sprintf("pure:%v/%d/%d", prios, q, lim))
 }
